@@ -590,7 +590,7 @@ type SpecFile struct {
 
 var topKeywords = map[string]bool{"global": true, "ghost": true, "ufunc": true, "pred": true, "sfunc": true, "axiom": true, "lemma": true, "fn": true}
 var clauseKeywords = map[string]bool{"props": true, "requires": true, "ensures": true, "modifies": true, "loop": true, "safety": true,
-	"trusted": true, "pure": true, "noeffect": true, "nullable": true, "interference": true, "expect": true, "assert": true, "inline": true, "funcset": true, "returnsclosure": true, "callsback": true,
+	"trusted": true, "pure": true, "noeffect": true, "nullable": true, "interference": true, "expect": true, "assert": true, "inline": true, "funcset": true, "returnsclosure": true, "callsback": true, "callback": true,
 	"freshresult": true, "nonnilresult": true, "uses": true, "spawn": true, "records": true}
 
 // extractSpecLines pulls the //@ lines out of a Go source text.
@@ -1074,6 +1074,28 @@ func parseSpecText(src, pkg, file string, assumed bool) (*SpecFile, error) {
 					return nil, errf(s.line, "%v", err)
 				}
 				cur.Sites = append(cur.Sites, &Clause{Kind: "assert" + when, Label: label, Props: props, E: e, Src: rest, Callee: callee, Ord: ord})
+			case "callback":
+				// callback CALLEE[#k] invariant [label] EXPR — holds before the call to CALLEE (a `callsback` function),
+				// is preserved by one invocation of the callback handed to it, and is what is known afterwards;
+				// entry(e) is the value of e before the call
+				callee, rest := firstWord(s.rest)
+				ord := -1
+				if i := strings.LastIndex(callee, "#"); i >= 0 {
+					if n, err := strconv.Atoi(callee[i+1:]); err == nil {
+						ord = n
+						callee = callee[:i]
+					}
+				}
+				kw, rest := firstWord(rest)
+				if kw != "invariant" {
+					return nil, errf(s.line, "callback CALLEE invariant EXPR")
+				}
+				label, props, rest := parseLabel(rest)
+				e, err := parseExpr(rest)
+				if err != nil {
+					return nil, errf(s.line, "%v", err)
+				}
+				cur.Sites = append(cur.Sites, &Clause{Kind: "cbinv", Label: label, Props: props, E: e, Src: rest, Callee: callee, Ord: ord})
 			case "uses":
 			default:
 				return nil, errf(s.line, "unknown clause %q", s.kw)
